@@ -106,6 +106,14 @@ func C05(ctx *core.Ctx, r *core.Report) {
 	c05MinMax(ctx, r)
 	c05BoundsExact(ctx, r)
 	c05ListElementsIndividually(ctx, r)
+	c05NumericClassNormalised(ctx, r)
+	readerErrorsSurface(ctx, r)
+	{
+		// a value reaches the checker only after conversion: a conversion that wraps puts a number inside the range that was outside it (C10's rule)
+		sub := core.NewReport("C10", r.Tier, r.Root, r.Seed)
+		C10(ctx, sub)
+		r.Borrow(sub, "lossy-convert")
+	}
 	c05PatternsNotWidened(ctx, r)
 	postConstraintsAlwaysRun(ctx, r)
 	// the type check of written values is one of the registered constraints: it must survive
